@@ -1,6 +1,6 @@
 SPEC_PART = dict(
     props_file="C18_hll",
-    legs=[dict(family="hll", focus="size", oracles=["layout_ok"], profiles=["debug"], mask=[1, 2, 7], n_quick=8, n_thorough=40)],
+    legs=[dict(family="hll", focus="size", oracles=["layout_ok"], profiles=["debug"], mask=[1, 2, 7], n_quick=8, n_thorough=40, panic_is_violation=True)],
     trusted=["hll: Model/HllCodec.v hll_serialize mirrors HllSketch::serialize (tied byte for byte by the correspondence run, op 7)"],
     assumptions=["hll: coupons with a value field in 1..63; 4 <= lg_k <= 21"],
     covers="hll: for every stream (all lg_k, types) the image of the reached sketch has exactly 8 + 4c (list, c <= 7 distinct "
